@@ -114,3 +114,44 @@ pub open spec fn conv_addr<CA: Fn(u64) -> Option<Address>>(ca: &CA, a: u64, out:
 /// Relation "expression bytes `from` (a reader window) under `enc` were converted to `out`".  Established by
 /// `write::op::convert::Expression::from`; opaque to the CFI / list layers, which only pass it through.
 pub uninterp spec fn expr_conv(from: crate::vspec::RView, enc: Encoding, has_unit: bool, out: crate::write::op::Expression) -> bool;
+
+// ---- instruction sequences (CIE initial instructions / FDE instructions)
+/// code location (byte offset from the FDE's initial address) reached after the instructions `src`:
+/// the sum of all advance_loc deltas times the code alignment factor (6.4.2.1)
+pub open spec fn cfi_loc(src: Seq<rcfi::CallFrameInstruction<usize>>, caf: int) -> int
+    decreases src.len()
+{
+    if src.len() == 0 { 0 } else {
+        cfi_loc(src.drop_last(), caf) + (match src.last() { rcfi::CallFrameInstruction::AdvanceLoc { delta } => delta as int * caf, _ => 0 })
+    }
+}
+
+/// the meaning of an instruction sequence: every rule-changing instruction with the location it applies at
+/// (advance_loc and nop contribute only through the location)
+pub open spec fn cfi_rows(src: Seq<rcfi::CallFrameInstruction<usize>>, caf: int, daf: int) -> Seq<(int, CfiSem)>
+    decreases src.len()
+{
+    if src.len() == 0 { Seq::empty() } else {
+        let pre = src.drop_last();
+        let i = src.last();
+        if i is AdvanceLoc || i is Nop { cfi_rows(pre, caf, daf) } else { cfi_rows(pre, caf, daf).push((cfi_loc(pre, caf), read_cfi_sem(i, caf, daf))) }
+    }
+}
+
+pub open spec fn wfde_rows(v: Seq<(u32, wcfi::CallFrameInstruction)>) -> Seq<(int, CfiSem)> {
+    Seq::new(v.len(), |k: int| (v[k].0 as int, write_cfi_sem(v[k].1)))
+}
+
+pub open spec fn wcie_sems(v: Seq<wcfi::CallFrameInstruction>) -> Seq<CfiSem> {
+    Seq::new(v.len(), |k: int| write_cfi_sem(v[k]))
+}
+
+pub open spec fn row_sems(rows: Seq<(int, CfiSem)>) -> Seq<CfiSem> {
+    Seq::new(rows.len(), |k: int| rows[k].1)
+}
+
+/// the address a decoded pointer denotes (gimli treats direct and indirect alike when converting: the pointer
+/// encoding, which is copied, already says whether it is indirect)
+pub open spec fn pointer_value(p: rcfi::Pointer) -> u64 {
+    match p { rcfi::Pointer::Direct(a) => a, rcfi::Pointer::Indirect(a) => a }
+}
